@@ -3675,6 +3675,9 @@ class CacheDataset(Dataset):
             item = self.keys().index(item)
 
         if isinstance(item, numbers.Integral):
+            if item < 0 and item + len(self) >= 0:
+                # ds[-1] and ds[len(ds) - 1] are the same example.
+                item = item + len(self)
             try:
                 return self._cache[item]
             except KeyError:
